@@ -1,7 +1,6 @@
 package main
 
 import (
-	"os"
 	"fmt"
 	"math/big"
 	"math/rand"
@@ -543,17 +542,15 @@ func (g *gen) progCase(maxDepth int) caseT {
 		c.Ctx = "var"
 		g.iota = false
 		_, c.Expr = pick()
-		// `c0 := e` inside main. (The interface forms "iface" / "ifacelocal" are used by the default-type family only:
-		// on the general stream a constant expression with an interface destination is not folded at all — reported
-		// to the lead, not listed yet.)
-		if os.Getenv("VERIF_C03_IFACE") != "" {
-			switch r.Intn(8) {
-			case 0:
-				c.Form = "iface"
-			case 1:
-				c.Form = "ifacelocal"
-			}
-		} else if r.Intn(8) == 0 {
+		// how the real program uses the declaration: as written, `c0 := e` inside main, or with an interface destination
+		// (`var c0 interface{} = e` at package level / inside main: the interface holds the constant converted to its
+		// default type; constant expressions are folded there too since 7171cc6 / 674fd4c / 287aa9d)
+		switch r.Intn(8) {
+		case 0:
+			c.Form = "iface"
+		case 1:
+			c.Form = "ifacelocal"
+		case 2:
 			c.Form = "short"
 		}
 	case x < 12:
@@ -683,10 +680,6 @@ func fixedProgCases() []caseT {
 
 // signature returns the divergence class of the input ("" = inside the proved domain).
 func signature(c caseT, ans map[string]string) string {
-	if floatShift(c) {
-		// F03-23: the node of a constant shift keeps the untyped floating-point / complex type of its left operand
-		return "float-shift-type"
-	}
 	switch c.Kind {
 	case "repr":
 		// representableConst is exact for every kind and every integer since the repair of F03
